@@ -1,4 +1,5 @@
 import Traph.Step
+import Traph.Bytes
 /-! C18 — a torn or truncated write history. The ghost log of a state is the program-ordered list of
     storage writes; `replay` rebuilds the two stores from any prefix of it; `openCut` is what the
     constructor's open-time checks and header `__ensure` make of the rebuilt files. -/
@@ -85,5 +86,16 @@ def cutOpenE (ram : State) (full : List Event) (k j : Nat) : Except Err State :=
     | some e => if e.isAppend f then j else 0
     | none => 0
   openCut ram f torn
+
+/-- how a ghost write reaches the storage layer: (kind, byte offset, bytes) with kind 0 = trie write at an offset,
+    1 = trie append, 2 = link-store write at an offset, 3 = link-store append. The driver fingerprints exactly these
+    and the harness compares them with the real `FileStorage.write` / `MemoryStorage.write` calls; Proofs/StorageBridge
+    proves that the calls are disciplined and leave both back-ends with the codec image of the state. -/
+def writeBytes : Write → Nat × Nat × Bytes
+  | .hdr id => (0, 0, encodeTrieHeader id)
+  | .trieAppend c => (1, 0, encodeCell c)
+  | .trieSet i c => (0, i * Layout.trieBlock, encodeCell c)
+  | .linkHdr => (2, 0, encodeLinkHeader)
+  | .linkAppend s => (3, 0, encodeStub s)
 
 end Traph
